@@ -112,6 +112,8 @@ type rcDriver struct {
 	ctxs               []context.Context
 	cancels            []context.CancelFunc
 	wantRoot, rootDone bool
+	valCall            map[int]int // value -> latest resolver call that returned it (values may repeat: "valsame")
+	lastVal            int
 	ctl                *sched.Actor
 	nres               int
 	res                map[int]*rcRes
@@ -250,8 +252,8 @@ func (d *rcDriver) resolver(ctx context.Context, released func()) (int, func(), 
 	rs.active = false
 	rs.park = nil
 	d.mu.Unlock()
-	withRel := out == "val" || out == "errrel"
-	isVal := out == "val" || out == "valnr"
+	withRel := out == "val" || out == "errrel" || out == "valsame"
+	isVal := out == "val" || out == "valnr" || out == "valsame"
 	kind := "err"
 	if isVal {
 		kind = "val"
@@ -260,13 +262,38 @@ func (d *rcDriver) resolver(ctx context.Context, released func()) (int, func(), 
 	var rel func()
 	if withRel {
 		rel = func() {
-			d.x.Log(trace.E{"ev": "rel", "n": n, "tgt": d.tgt.GetValue()})
+			d.x.Log(trace.E{"ev": "rel", "n": n, "tgt": d.cn(d.tgt.GetValue())})
 		}
 	}
 	if isVal {
-		return n, rel, nil
+		// "valsame": a NEW resolution whose value compares equal to the previous one. NOT offered by the
+		// scenario generators: the monitor identifies a value by its resolver call, and a consumer that
+		// still holds an older generation's (equal) value cannot be attributed (tried; AccessWrongVal
+		// false alarms) -- kept for experiments only.
+		rv := n
+		d.mu.Lock()
+		if out == "valsame" && d.lastVal != 0 && d.nActive() == 0 {
+			rv = d.lastVal
+		}
+		d.valCall[rv] = n
+		d.lastVal = rv
+		d.mu.Unlock()
+		return rv, rel, nil
 	}
 	return 0, rel, &rcErr{n}
+}
+
+// cn translates a value handed out by the library into the resolver call that produced it.
+func (d *rcDriver) cn(v int) int {
+	if v == 0 {
+		return 0
+	}
+	d.mu.Lock()
+	defer d.mu.Unlock()
+	if n, ok := d.valCall[v]; ok {
+		return n
+	}
+	return v
 }
 
 // refCallback builds the callback of a plain reference.
@@ -276,6 +303,7 @@ func (d *rcDriver) refCallback(ref int, kind string) func(bool, int, error) {
 	}
 	fired := false
 	return func(resolved bool, val int, err error) {
+		val = d.cn(val)
 		_, en := errID(err)
 		if err != nil && en == 0 {
 			en = -2
@@ -411,7 +439,7 @@ func (d *rcDriver) opFunc(c *rcClient, pi int, op rcOp) sched.Op {
 					return
 				}
 				d.register(c, pi, id, rel)
-				x.Log(trace.E{"ev": "ret", "id": id, "res": "ok", "val": val, "err": 0, "actor": name})
+				x.Log(trace.E{"ev": "ret", "id": id, "res": "ok", "val": d.cn(val), "err": 0, "actor": name})
 			})
 		}}
 	case "access":
@@ -428,7 +456,7 @@ func (d *rcDriver) opFunc(c *rcClient, pi int, op rcOp) sched.Op {
 				err := d.rc.Access(ctx, func(cctx context.Context, val int) error {
 					k++
 					kk := k
-					x.Log(trace.E{"ev": "cbenter", "id": id, "k": kk, "val": val})
+					x.Log(trace.E{"ev": "cbenter", "id": id, "k": kk, "val": d.cn(val)})
 					d.mu.Lock()
 					c.incb, c.cbctx = true, cctx
 					d.mu.Unlock()
@@ -568,7 +596,7 @@ func (d *rcDriver) observe() {
 			te = -2
 		}
 	}
-	x.Log(trace.E{"ev": "quiet", "tgt": d.tgt.GetValue(), "tgterr": te, "act": act, "blk": blk, "incb": incb, "cbdone": cbdone, "open": open})
+	x.Log(trace.E{"ev": "quiet", "tgt": d.cn(d.tgt.GetValue()), "tgterr": te, "act": act, "blk": blk, "incb": incb, "cbdone": cbdone, "open": open})
 	d.lastQ = x.T.Seq()
 }
 
@@ -591,6 +619,7 @@ func (d *rcDriver) Run(x *sched.Exec, raw json.RawMessage) json.RawMessage {
 	out, _ := json.Marshal(d.sc)
 	d.ctl = x.Self()
 	d.res = map[int]*rcRes{}
+	d.valCall = map[int]int{}
 	d.byName = map[string]*rcClient{}
 	d.dropped = map[int]bool{}
 	d.ctxs = []context.Context{nil}
